@@ -130,7 +130,8 @@ def main():
             rc, out = sh("timeout %d %s" % (s.get("timeout", 1500), cmd), timeout=s.get("timeout", 1500) + 60)
             if rc != 0:
                 return (s, name, rc, out, "")
-            rc2, out2 = sh("timeout 1500 ./bin/modelrun %s/%s.cases" % (work, name), timeout=1600)
+            ev = s.get("eval", "./bin/modelrun {cases}").format(cases="%s/%s.cases" % (work, name), work=work)
+            rc2, out2 = sh("timeout 1500 " + ev, timeout=1600)
             return (s, name, rc2, out, out2)
 
         with ThreadPoolExecutor(max_workers=int(os.environ.get("VERIF_JOBS", "8"))) as ex:
